@@ -160,6 +160,10 @@ def generate(rng, index, tier):
                 has_parent = True
                 level = rng.choice([0, 1, 3])
                 steps.append({'op': 'parent_join', 'level': level, 'root': PARENT if level == 0 else 'r2', 'gap': gap})
+    if has_parent and rng.random() < 0.12:
+        # the server connection is lost somewhere along the way (once); later requests come from the parent only
+        pos = rng.randint(0, len(steps))
+        steps.insert(pos, {'op': 'server_loss', 'how': rng.choice(['close', 'abort']), 'gap': rng.choice([0.0, 0.3, 1.0])})
     plan['steps'] = steps
     return plan
 
@@ -206,6 +210,12 @@ def corpus(tier):
     out.append(_plan([search('server'), {'op': 'parent_join', 'level': 1, 'root': 'r2', 'gap': 0.3}, search('dist', gap=1.0),
                       search('legacy', OWN, gap=0.3), {'op': 'parent_leave', 'how': 'close', 'gap': 0.3},
                       search('server', gap=1.0), search('server', OWN, gap=0.3)], parent=None))
+    # 7. the server connection is lost while parent and children stay connected: requests from the parent still go down
+    for how in ('close', 'abort'):
+        for carrier in ('dist', 'legacy'):
+            out.append(_plan([search(carrier), {'op': 'server_loss', 'how': how, 'gap': 0.3}, search(carrier, gap=1.0),
+                              search(carrier, FRIEND, gap=0.3), {'op': 'join', 'peer': 'c2', 'gap': 0.3},
+                              search(carrier, gap=1.0)], parent='default'))
     # 6. tickets at the edges of the range
     out.append(_plan([dict(search('dist'), ticket=t) for t in TICKETS]))
     return out
@@ -454,7 +464,7 @@ def _run(world: World, plan):
                     't': loop.time(), 'iteration': loop.iterations, 'has_parent': parent is not None,
                     'from_parent': parent is not None and parent.connection is conn,
                     'parent_sim': conn_sim.get(id(parent.connection)) if parent is not None else None,
-                    'children': sims_of(dn.children)}
+                    'children': sims_of(dn.children), 'session': client.session is not None}
                 world.trace('request_delivered', req['id'], carrier, tuple(req['delivered']['children']))
                 break
 
@@ -547,6 +557,14 @@ def _run(world: World, plan):
             if rec is not None:
                 end_link(rec, step.get('how', 'close'))
                 sig_steps.append(('parent_leave', step.get('how', 'close')))
+        elif op == 'server_loss':
+            # the server connection goes away (no reconnect); the distributed connections stay
+            sess = [x for x in server.sessions if not x.closed]
+            if sess:
+                world.net.fired['server_lost'] += 1
+                state['server_lost_at'] = loop.time()
+                (sess[-1].abort if step.get('how') == 'abort' else sess[-1].close)()
+                sig_steps.append(('server_loss',))
         elif op == 'parent_join':
             if live(PARENT, 'acc') is None:
                 peers[PARENT].spawn(take_parent(int(step.get('level', 1)), step.get('root', 'r2')))
@@ -649,6 +667,12 @@ def _run(world: World, plan):
             continue
         judged += 1
         own = model.is_own_request(req['user'], OWN)
+        if not d['session']:
+            # nobody is logged in: "searches that originate from the logged-in user" and the answer (which needs the
+            # server to find the asker) are not judged; the fan-out to the current children is
+            world.probe('request_without_session')
+            if own:
+                continue
         triple = (req['user'], req['ticket'], req['query'])
         td = d['t']
         stable, unstable = [], []
@@ -688,6 +712,11 @@ def _run(world: World, plan):
                     n_other += 1
                 if copies:
                     world.violate('C14.fanout_wrong_target', role=role_at(rec, d), **base)
+        if not d['session']:
+            sig_requests.append((req['carrier'], 'no_session', len(stable), len(unstable)))
+            if stable:
+                nontrivial = True
+            continue
         # --- the answer
         asker = req['user']
         expectation = model.reply_expectation(index, req['query'], asker, OWN, [FRIEND])
@@ -716,7 +745,10 @@ def _run(world: World, plan):
                 visible, locked = expectation
                 klass = 'both' if visible and locked else 'visible' if visible else 'locked'
                 facts = dict(base, matches=klass)
-                if not got:
+                if not got and state.get('server_lost_at') is not None and state['server_lost_at'] <= td + 75.0:
+                    # the answer needs the server (address of the asker, relayed connect): lost before it could be sent
+                    world.probe('reply_not_judged_server_lost_later')
+                elif not got:
                     world.violate('C14.reply_missing', **facts)
                 elif len(got) > 1:
                     world.violate('C14.reply_dup', **facts)
